@@ -78,13 +78,14 @@ class LoggingOSUtils:
         return getattr(self.real, name)
 
     def _pt(self, name, **kw):
-        self.I.log('fs', op=name, **kw)
         self.I.sched.yield_point('fs.' + name)
         if self.fault:
             e = self.fault(name, kw)
             if e is not None:
+                # the fault strikes before the effect: the model sees no file event
                 self.I.log('fs_fault', op=name, **kw)
                 raise e
+        self.I.log('fs', op=name, **kw)
 
     def open(self, filename, mode):
         self._pt('open', path=os.path.basename(filename), mode=mode)
